@@ -237,6 +237,20 @@ def gen_lines(tier):
                 ln = C06.Line("%s/%s/a/%d" % (mode, A.short, K), A, R, "return unwrap(wrap<%s>(a) / wrap<%s>(%s));" % (ri(A, mode), ri(A, mode), A.lit(K)), "return 0;", {},
                               meta=dict(mode=mode, K=K, A=A.short))
                 L.append(ln)
+    # operands of different signedness whose common type is signed and holds both ranges exactly (seeded change M-C08-7
+    # skipped the sign tests whenever one operand type was unsigned): the same family argument, the divisor a constant of
+    # the other type
+    mixed = [(I8, U8), (U8, I8), (I32, U16), (U16, I32), (U32, I64), (I64, U32)]
+    for mode in ("nearest", "tie"):
+        for (A, B) in mixed:
+            R = promote(uac(A, B))
+            for K in ([3, 5, 6, 7, -3, -5, -7] if B.signed else [3, 5, 6, 7]):
+                ln = C06.Line("%s/mixed/%s,%s/a/%d" % (mode, A.short, B.short, K), A, R, "return unwrap(wrap<%s>(a) / wrap<%s>(%s));" % (ri(A, mode), ri(B, mode), B.lit(K)), "return 0;", {},
+                              meta=dict(mode=mode, K=K, A=A.short, B=B.short))
+                L.append(ln)
+                ln = C06.Line("%s/mixed-builtin-rhs/%s,%s/a/%d" % (mode, A.short, B.short, K), A, R, "return unwrap(wrap<%s>(a) / %s);" % (ri(A, mode), B.lit(K)), "return 0;", {},
+                              meta=dict(mode=mode, K=K, A=A.short, B=B.short))
+                L.append(ln)
     return L
 
 
@@ -312,7 +326,7 @@ def gen_eq(tier):
     return obs, facts
 
 
-FLOOR = {"quick": dict(eq=230, lines=150, ub=150), "thorough": dict(eq=400, lines=270, ub=350)}
+FLOOR = {"quick": dict(eq=230, lines=280, ub=150), "thorough": dict(eq=400, lines=380, ub=350)}
 
 
 def run(tier, seed, work):
@@ -435,7 +449,7 @@ def run(tier, seed, work):
         "direction_lines": len(L), "direction_proved": cnt["proved"], "direction_refuted": cnt["refuted"], "direction_undecided": cnt["undecided"],
         "ub_lines": len(U), "ub_proved": ucnt["proved"], "ub_refuted": ucnt["refuted"], "ub_undecided": ucnt["undecided"],
         "oracle_selfcheck_points": nval,
-        "undecided_samples": [{"key": u.key, "why": u.details[:1]} for u in und[:6]],
+        "undecided_samples": [{"key": u.key, "why": u.details[:1]} for u in und[:6]], "undecided_keys": [u.key for u in und],
         "samples": [{"key": g.key, "cnl": g.cnl, "tree": g.gk[:200], "demanded": closed_form(g.meta["mode"], g.meta["K"])} for g in rng.sample(good, min(6, len(good)))],
         "exhaustive": False,
     }
